@@ -90,22 +90,30 @@ Resolve1(h, id, skip) ==
       E_redefint == LS = {"int"} /\ Cardinality(Defs) > 1                                              \* 6.9p3
       Used(i)    == i \notin skip
       E_usedundef == LS = {"int"} /\ kinds = {"func"} /\ Defs = {} /\ \E i \in LD : Used(i)            \* 6.9p3
-      err == IF E_tlsblock THEN "6.7.1p3-block-thread-local"
-             ELSE IF E_funcsc THEN "6.7.1p7-block-function-storage-class"
-             ELSE IF E_blockinit THEN "6.7.9p5-block-linkage-initializer"
-             ELSE IF E_nolink THEN "6.7p3-no-linkage-redeclared"
-             ELSE IF E_kind THEN "6.7p4-different-kind"
-             ELSE IF E_thread THEN "6.7.1p3-thread-local-mismatch"
-             ELSE IF E_redefint THEN "6.9p3-internal-redefined"
-             ELSE IF E_usedundef THEN "6.9p3-internal-used-undefined"
-             ELSE ""
       (* ---- undefined behaviour: excluded from judgement ---- *)
       U_link  == Cardinality(LS) > 1                                                                   \* 6.2.2p7
       U_kind  == Cardinality(kinds) > 1                                                                \* 6.2.7p2
       U_redef == LS = {"ext"} /\ Cardinality(Defs) > 1                                                 \* 6.9p5
       U_inl   == LS = {"ext"} /\ kinds = {"func"} /\ Defs = {} /\ \E i \in LD : h[i].inl               \* 6.7.4p7
-      ub == IF U_link THEN "6.2.2p7" ELSE IF U_kind THEN "6.2.7p2" ELSE IF U_redef THEN "6.9p5"
-            ELSE IF U_inl THEN "6.7.4p7" ELSE ""
+      (* Verdict.  A constraint violation needs a diagnostic even if the unit also has undefined       *)
+      (* behaviour (5.1.1.3p1); but a constraint that speaks about "the same object or function" is    *)
+      (* only judged where 6.2.2p7 / 6.2.7p2 leave the identity of the entity intact.                   *)
+      verdict ==
+        IF E_tlsblock THEN <<"error", "6.7.1p3-block-thread-local">>
+        ELSE IF E_funcsc THEN <<"error", "6.7.1p7-block-function-storage-class">>
+        ELSE IF E_blockinit THEN <<"error", "6.7.9p5-block-linkage-initializer">>
+        ELSE IF E_nolink THEN <<"error", "6.7p3-no-linkage-redeclared">>
+        ELSE IF U_link THEN <<"ub", "6.2.2p7">>
+        ELSE IF E_kind THEN <<"error", "6.7p4-different-kind">>
+        ELSE IF U_kind THEN <<"ub", "6.2.7p2">>
+        ELSE IF E_thread THEN <<"error", "6.7.1p3-thread-local-mismatch">>
+        ELSE IF E_redefint THEN <<"error", "6.9p3-internal-redefined">>
+        ELSE IF E_usedundef THEN <<"error", "6.9p3-internal-used-undefined">>
+        ELSE IF U_redef THEN <<"ub", "6.9p5">>
+        ELSE IF U_inl THEN <<"ub", "6.7.4p7">>
+        ELSE <<"ok", "">>
+      err == IF verdict[1] = "error" THEN verdict[2] ELSE ""
+      ub  == IF verdict[1] = "ub" THEN verdict[2] ELSE ""
       (* ---- the well-defined outcome ---- *)
       link  == IF LD = {} THEN "none" ELSE CHOOSE l \in LS : TRUE
       kind  == IF LD = {} THEN "none" ELSE CHOOSE k \in kinds : TRUE
